@@ -381,56 +381,59 @@ class Repo:
         raise AnchorError("macro_rules! %s not found in %s" % (name, hint_files))
 
     def locate(self, anchor, macro_files=()):
-        """anchor: 'src/x.rs :: impl Foo :: fn bar' ; returns Located."""
-        segs = [s.strip() for s in anchor.split("::SEG::")] if "::SEG::" in anchor else None
-        if segs is None:
-            segs = [s.strip() for s in split_anchor(anchor)]
+        """anchor: 'src/x.rs :: impl Foo :: fn bar' ; returns Located.
+        When several items match a non-final segment (e.g. two `impl` blocks
+        with the same header) each is searched in source order."""
+        import re as _re
+        segs = [s.strip() for s in split_anchor(anchor)]
         rel = segs[0]
         src = self.source(rel)
-        scope = src.toks
-        notes = []
-        found = None
-        for seg in segs[1:]:
-            kind, _, rest = seg.partition(" ")
-            rest = rest.strip()
+
+        def matches(seg, scope):
+            m = _re.match(r"^([A-Za-z_]+)\s*(.*)$", seg)
+            kind, rest = m.group(1), m.group(2).strip()
             want = keys(lex_fragment(rest))
-            found = None
             for it in scan_items(scope, self.features):
                 (k, head, kw, bo, bc, st, attrs) = it
                 if kind == "impl" and k == "impl" and keys(head) == want:
-                    found = it
+                    yield kind, rest, it
                 elif kind in ("fn", "mod", "trait", "struct", "enum") and k == kind and head and head[0].text == rest:
-                    found = it
+                    yield kind, rest, it
                 elif kind == "invoke" and k == "invoke" and head[0].text == rest:
-                    found = it
+                    yield kind, rest, it
                 elif kind == "macro" and k == "macro" and head[0].text == rest:
-                    found = it
-                if found:
-                    break
-            if not found:
-                raise AnchorError("anchor segment `%s` not found (%s)" % (seg, anchor))
-            (k, head, kw, bo, bc, st, attrs) = found
-            if kind == "invoke":
-                macro, mrel = self.find_macro(rest, [rel] + list(macro_files))
-                exp, binds, rename = expand(macro, scope[bo + 1:bc])
-                notes.append("macro %s!(%s) transcribed from %s%s" % (
-                    rest, text_of(scope[bo + 1:bc]), mrel,
-                    (" renamed " + ",".join(sorted(rename))) if rename else ""))
-                scope = exp
-                found = None
-            elif seg is segs[-1]:
-                lo = scope[kw].line
-                hi = scope[bc].line
-                quals = [t.text for t in scope[st:kw] if t.kind == "id" and t.text in QUALIFIERS]
-                item = [t.clone() for t in scope[kw:bc + 1]]
-                return Located(item, k, rel, lo, hi, notes, quals)
-            else:
-                if bo is None:
-                    raise AnchorError("segment `%s` has no body" % seg)
-                scope = scope[bo + 1:bc]
-        if found is None and segs[-1].startswith("invoke"):
-            return Located([t.clone() for t in scope], "expansion", rel, 0, 0, notes, [])
-        raise AnchorError("bad anchor " + anchor)
+                    yield kind, rest, it
+
+        def go(scope, idx, notes):
+            seg = segs[idx]
+            last = idx == len(segs) - 1
+            for kind, rest, it in matches(seg, scope):
+                (k, head, kw, bo, bc, st, attrs) = it
+                if kind == "invoke":
+                    macro, mrel = self.find_macro(rest, [rel] + list(macro_files))
+                    exp, binds, rename = expand(macro, scope[bo + 1:bc])
+                    n2 = notes + ["macro %s!(%s) transcribed from %s%s" % (
+                        rest, text_of(scope[bo + 1:bc]), mrel,
+                        (" (hygiene: renamed " + ",".join(sorted(rename)) + ")") if rename else "")]
+                    if last:
+                        return Located([t.clone() for t in exp], "expansion", rel, scope[kw].line, scope[bc].line, n2, [])
+                    r = go(exp, idx + 1, n2)
+                    if r is not None:
+                        return r
+                elif last:
+                    quals = [t.text for t in scope[st:kw] if t.kind == "id" and t.text in QUALIFIERS]
+                    item = [t.clone() for t in scope[kw:bc + 1]]
+                    return Located(item, k, rel, scope[kw].line, scope[bc].line, notes, quals)
+                elif bo is not None:
+                    r = go(scope[bo + 1:bc], idx + 1, notes)
+                    if r is not None:
+                        return r
+            return None
+
+        r = go(src.toks, 1, [])
+        if r is None:
+            raise AnchorError("anchor not found in the working tree: %s" % anchor)
+        return r
 
 
 def split_anchor(a):
